@@ -74,11 +74,19 @@ class Spec:
 def parse_spec(unit):
     path = os.path.join(VERIF, "units", unit + ".spec")
     sp = Spec(unit)
-    if not os.path.exists(path):
+    gen = path + ".py"
+    if os.path.exists(gen):
+        # generated side-car: a deterministic script printing the spec text (type loops)
+        rc, so, se, dt = run([sys.executable, gen], timeout=60, mem=False)
+        if rc != 0:
+            raise Undecided("spec generator %s failed: %s" % (gen, se[-800:]))
+        raw = so.replace("\\\n", " ")
+    elif not os.path.exists(path):
         return sp
+    else:
+        raw = open(path).read().replace("\\\n", " ")
     cur = None
     kind = None
-    raw = open(path).read().replace("\\\n", " ")
     for ln, line in enumerate(raw.split("\n"), 1):
         s = line.strip()
         if not s or s.startswith("#"):
@@ -511,7 +519,8 @@ def native_replay(exe, harness, vals, replay_path):
 
 # ----------------------------------------------------------------------------- driver
 def all_units():
-    return sorted(f[:-5] for f in os.listdir(os.path.join(VERIF, "units")) if f.endswith(".spec"))
+    return sorted(set(f[:-5] for f in os.listdir(os.path.join(VERIF, "units")) if f.endswith(".spec")) |
+                  set(f[:-8] for f in os.listdir(os.path.join(VERIF, "units")) if f.endswith(".spec.py")))
 
 
 def load_known():
